@@ -168,13 +168,19 @@ class FuncScan(ast.NodeVisitor):
     def visit_Assign(self, node):
         self.generic_visit(node)
         org = self.origin_of_expr(node.value)
-        for t in node.targets:
-            if isinstance(t, ast.Attribute) and isinstance(t.value, ast.Name) and t.value.id == "self":
+
+        def assign_to(t):
+            if isinstance(t, (ast.Tuple, ast.List)):        # a, self.b, c[0] = ...
+                for e in t.elts:
+                    assign_to(e.value if isinstance(e, ast.Starred) else e)
+            elif isinstance(t, ast.Attribute) and isinstance(t.value, ast.Name) and t.value.id == "self":
                 self.attr_writes.append((t.attr, node.lineno))
             elif isinstance(t, (ast.Subscript, ast.Attribute)):
                 self.record("setitem", t, node.lineno)
             else:
                 self.bind(t, org)
+        for t in node.targets:
+            assign_to(t)
 
     def visit_AnnAssign(self, node):
         self.generic_visit(node)
